@@ -55,10 +55,10 @@ func genConc(t *rapid.T) ConcCase {
 		WaitBuild:     rapid.Bool().Draw(t, "waitbuild"),
 	}
 	// at least one cache layer; two-queue sizes >= 2 (1 is rejected by the constructor)
-	switch rapid.IntRange(0, 5).Draw(t, "layers") {
-	case 0:
+	switch rapid.IntRange(0, 6).Draw(t, "layers") {
+	case 0, 1, 2:
 		c.TQSize = rapid.IntRange(2, 8).Draw(t, "tq")
-	case 1:
+	case 3:
 		c.BloomSize, c.BloomHashes = rapid.IntRange(1, 64).Draw(t, "bloom"), rapid.IntRange(1, 7).Draw(t, "hashes")
 	default:
 		c.TQSize = rapid.OneOf(rapid.IntRange(2, 4), rapid.IntRange(2, 64)).Draw(t, "tq")
@@ -108,6 +108,9 @@ func genConc(t *rapid.T) ConcCase {
 
 type regIn struct {
 	op int // 0 read, 1 put, 2 delete
+	// relax is set only when a failing history is re-checked against the signature of an
+	// open finding: 1 = the answer of this read is not constrained, 2 = this put may be lost
+	relax int
 }
 
 type rec struct {
@@ -119,21 +122,47 @@ type rec struct {
 	call, ret int64
 }
 
+// The register is checked on sets of possible states (bit 0: absent, bit 1: present), so
+// that the relaxed operations above stay deterministic for porcupine.
+const (
+	stAbsent  uint8 = 1
+	stPresent uint8 = 2
+)
+
 func registerModel(initial bool) porcupine.Model {
 	return porcupine.Model{
-		Init: func() interface{} { return initial },
+		Init: func() interface{} {
+			if initial {
+				return stPresent
+			}
+			return stAbsent
+		},
 		Step: func(state, input, output interface{}) (bool, interface{}) {
-			st := state.(bool)
-			switch input.(regIn).op {
+			st := state.(uint8)
+			in := input.(regIn)
+			switch in.op {
 			case 1:
-				return true, true
+				if in.relax == 2 {
+					return true, st | stPresent
+				}
+				return true, stPresent
 			case 2:
-				return true, false
+				return true, stAbsent
 			default:
-				return output.(bool) == st, st
+				if in.relax == 1 {
+					return true, st
+				}
+				want := stAbsent
+				if output.(bool) {
+					want = stPresent
+				}
+				if st&want == 0 {
+					return false, st
+				}
+				return true, want
 			}
 		},
-		Equal: func(a, b interface{}) bool { return a.(bool) == b.(bool) },
+		Equal: func(a, b interface{}) bool { return a.(uint8) == b.(uint8) },
 	}
 }
 
@@ -143,6 +172,101 @@ func checkKey(initial bool, recs []rec) porcupine.CheckResult {
 		ops = append(ops, porcupine.Operation{ClientId: r.client, Input: r.in, Call: r.call, Output: r.found, Return: r.ret})
 	}
 	return porcupine.CheckOperationsTimeout(registerModel(initial), ops, 20*time.Second)
+}
+
+// knownSignature re-checks a non-linearizable key history against the signatures of the
+// open findings; all of them need a Bloom build running concurrently:
+// (a) "absent" answers that overlap a Rebuild are unconstrained (bloom-rebuild-race);
+// (b) with a two-queue cache: puts that overlap a Delete of the same key by another
+//
+//	goroutine, itself overlapping a build, may be lost, and "present" answers overlapping
+//	such a Delete are unconstrained (tq-put-lost-during-delete);
+//
+// (c) answers of reads that overlap a Put of the same key by another goroutine, itself
+//
+//	overlapping a build, are unconstrained (bloom-build-exposes-inflight-put).
+//
+// It returns the finding key whose relaxation makes the history linearizable, or "".
+func knownSignature(c ConcCase, rebuilds [][2]int64, initial bool, rs []rec) string {
+	if c.BloomSize <= 0 {
+		return ""
+	}
+	inRebuild := func(x rec) bool {
+		for _, rb := range rebuilds {
+			if x.call < rb[1] && rb[0] < x.ret {
+				return true
+			}
+		}
+		return false
+	}
+	// a Bloom build ran concurrently with the threads at some time (a slow lookup can carry
+	// a decision taken under an older filter past the end of a build, so the overlap is not
+	// required per operation)
+	anyBuild := !c.WaitBuild || len(rebuilds) > 0
+	exposed := func(x rec) bool { return anyBuild }
+	overlaps := func(x, y rec) bool { return x.client != y.client && x.call < y.ret && y.call < x.ret }
+	sigA := func(x rec) int {
+		if x.in.op == 0 && !x.found && inRebuild(x) {
+			return 1
+		}
+		return 0
+	}
+	sigB := func(x rec) int {
+		if c.TQSize == 0 || x.in.op == 2 || (x.in.op == 0 && !x.found) {
+			return 0
+		}
+		for _, d := range rs {
+			if d.in.op == 2 && exposed(d) && overlaps(x, d) {
+				if x.in.op == 1 {
+					return 2
+				}
+				return 1
+			}
+		}
+		return 0
+	}
+	sigC := func(x rec) int {
+		if x.in.op != 0 {
+			return 0
+		}
+		for _, p := range rs {
+			if p.in.op == 1 && exposed(p) && overlaps(x, p) {
+				return 1
+			}
+		}
+		return 0
+	}
+	type sig struct {
+		key   string
+		relax []func(rec) int
+	}
+	for _, sg := range []sig{
+		{findingRace, []func(rec) int{sigA}},
+		{findingLost, []func(rec) int{sigB}},
+		{findingExposed, []func(rec) int{sigC}},
+		{findingLost, []func(rec) int{sigA, sigB, sigC}},
+	} {
+		if !kit.OpenFinding("C02", sg.key) {
+			continue
+		}
+		relaxed := make([]rec, len(rs))
+		n := 0
+		for i, x := range rs {
+			for _, f := range sg.relax {
+				if v := f(x); v > x.in.relax {
+					x.in.relax = v
+				}
+			}
+			if x.in.relax != 0 {
+				n++
+			}
+			relaxed[i] = x
+		}
+		if n > 0 && checkKey(initial, relaxed) == porcupine.Ok {
+			return sg.key
+		}
+	}
+	return ""
 }
 
 type concRun struct {
@@ -209,7 +333,7 @@ func (r *concRun) do(client int, op COp) {
 		if err != nil {
 			r.fail("Put(%s): unexpected error %v", c, err)
 		}
-		r.add(rec{client: client, kind: "put", key: string(c.Hash()), in: regIn{1}, call: call, ret: ret})
+		r.add(rec{client: client, kind: "put", key: string(c.Hash()), in: regIn{op: 1}, call: call, ret: ret})
 	case "putmany":
 		var bl []blocks.Block
 		seen := map[string]bool{}
@@ -220,7 +344,7 @@ func (r *concRun) do(client int, op COp) {
 			bl = append(bl, blk)
 			if !seen[string(c.Hash())] {
 				seen[string(c.Hash())] = true
-				rs = append(rs, rec{client: client, kind: "putmany", key: string(c.Hash()), in: regIn{1}})
+				rs = append(rs, rec{client: client, kind: "putmany", key: string(c.Hash()), in: regIn{op: 1}})
 			}
 		}
 		call := r.clock.Add(1)
@@ -241,7 +365,7 @@ func (r *concRun) do(client int, op COp) {
 		if err != nil {
 			r.fail("DeleteBlock(%s): unexpected error %v", c, err)
 		}
-		r.add(rec{client: client, kind: "delete", key: string(c.Hash()), in: regIn{2}, call: call, ret: ret})
+		r.add(rec{client: client, kind: "delete", key: string(c.Hash()), in: regIn{op: 2}, call: call, ret: ret})
 	case "has", "get", "getsize", "view":
 		c := r.cidOf(op.R)
 		want := r.data[string(c.Hash())]
@@ -297,7 +421,7 @@ func (r *concRun) do(client int, op COp) {
 			}
 		}
 		ret := r.clock.Add(1)
-		r.add(rec{client: client, kind: op.Kind, key: string(c.Hash()), in: regIn{0}, found: found, call: call, ret: ret})
+		r.add(rec{client: client, kind: op.Kind, key: string(c.Hash()), in: regIn{op: 0}, found: found, call: call, ret: ret})
 	}
 }
 
@@ -437,74 +561,8 @@ func runConcOnce(c ConcCase) kit.Result {
 			unknown = true
 		case porcupine.Illegal:
 			msg := fmt.Errorf("history of multihash %x (initially present=%v) is not linearizable against a register:%s", k, initial[k], describe(rs))
-			// signatures of the open findings (all need a Bloom build running concurrently):
-			// the history becomes linearizable when
-			// (a) "absent" answers that overlap a Rebuild are left out (bloom-rebuild-race);
-			// (b) puts and "present" answers (stale two-queue entry) that overlap a Delete of
-			//     the same key, itself overlapping a build, are left out
-			//     (tq-put-lost-during-delete);
-			// (c) reads that overlap a Put of the same key, itself overlapping a build, are
-			//     left out (bloom-build-exposes-inflight-put).
-			if bloom {
-				exposed := func(x rec) bool { // x overlaps a Bloom build
-					if !c.WaitBuild {
-						return true // the initial build may run at any time
-					}
-					for _, rb := range r.rebuilds {
-						if x.call < rb[1] && rb[0] < x.ret {
-							return true
-						}
-					}
-					return false
-				}
-				overlaps := func(x, y rec) bool { return x.client != y.client && x.call < y.ret && y.call < x.ret }
-				sigA := func(x rec, all []rec) bool { return x.in.op == 0 && !x.found && c.WaitBuild && exposed(x) }
-				sigB := func(x rec, all []rec) bool {
-					if c.TQSize == 0 || !(x.in.op == 1 || (x.in.op == 0 && x.found)) {
-						return false
-					}
-					for _, d := range all {
-						if d.in.op == 2 && exposed(d) && overlaps(x, d) {
-							return true
-						}
-					}
-					return false
-				}
-				sigC := func(x rec, all []rec) bool {
-					if x.in.op != 0 {
-						return false
-					}
-					for _, p := range all {
-						if p.in.op == 1 && exposed(p) && overlaps(x, p) {
-							return true
-						}
-					}
-					return false
-				}
-				type sig struct {
-					key  string
-					drop []func(rec, []rec) bool
-				}
-				for _, sg := range []sig{
-					{findingRace, []func(rec, []rec) bool{sigA}},
-					{findingLost, []func(rec, []rec) bool{sigB}},
-					{findingExposed, []func(rec, []rec) bool{sigC}},
-					{findingExposed, []func(rec, []rec) bool{sigA, sigB, sigC}},
-				} {
-					var kept []rec
-					for _, x := range rs {
-						drop := false
-						for _, f := range sg.drop {
-							drop = drop || f(x, rs)
-						}
-						if !drop {
-							kept = append(kept, x)
-						}
-					}
-					if len(kept) < len(rs) && checkKey(initial[k], kept) == porcupine.Ok {
-						return kit.Result{Err: msg, Known: sg.key}
-					}
-				}
+			if key := knownSignature(c, r.rebuilds, initial[k], rs); key != "" {
+				return kit.Result{Err: msg, Known: key}
 			}
 			return kit.Result{Err: msg}
 		}
@@ -528,7 +586,7 @@ func runConcOnce(c ConcCase) kit.Result {
 var concSpec = kit.Spec[ConcCase]{
 	Prop: "C02", Name: "conc",
 	Rule:  "2-6 goroutines x 5-20 ops (thorough <=30) on 3-4 keys (all CID alias forms) over [two-queue 2..64] and/or [Bloom 1..4096 bytes], optional concurrent Rebuild (<=4) and an initial build racing the threads; generated yields/20-60us sleeps at the backing blockstore boundary; call/return stamped by one atomic counter; every key's history (PutMany = one put per key over the same interval), closed by quiescent reads through all accessors, is checked for linearizability against the register {absent|present} with porcupine; returned bytes/sizes and quiescent agreement with the uncached store are checked directly. non-trivial = two ops of different goroutines overlap on one key and one of them mutates",
-	Quick: 300, Thorough: 1500,
+	Quick: 400, Thorough: 1200,
 	Gen: genConc, Run: runConc, Journal: true,
 	Sample: func(c ConcCase) any {
 		n := 0
